@@ -45,6 +45,9 @@ Proof.
   destruct (check_uri_ascii s); cbn [negb] in H; [|discriminate].
   destruct (starts_with_ignore_case s (bytes_of "rsync://")) eqn:Es; cbn [negb] in H; [|discriminate].
   destruct (check_path (skipn 8 s)) eqn:Ec; cbn [negb] in H; [|discriminate].
+  assert (Hl : List.length (firstn 8 s) = 8%nat).
+  { apply starts_with_length in Es. rewrite firstn_length.
+    change (List.length (bytes_of "rsync://")) with 8%nat in Es. lia. }
   destruct (cut_at SLASH (skipn 8 s)) as [a [t1|]] eqn:E1; [|discriminate].
   destruct a as [|a0 a']; [discriminate|].
   destruct (cut_at SLASH t1) as [m [p|]] eqn:E2; [|discriminate].
@@ -57,9 +60,7 @@ Proof.
   assert (Hna : a0 :: a' <> []) by discriminate. assert (Hnm : m0 :: m' <> []) by discriminate.
   destruct (check_path_items_cons _ _ Hna Ec) as [Na Ec'].
   destruct (check_path_items_cons _ _ Hnm Ec') as [Nm Ep].
-  repeat split; try assumption.
-  apply starts_with_length in Es. rewrite firstn_length. cbn [List.length bytes_of] in *.
-  change (List.length (bytes_of "rsync://")) with 8%nat in Es. lia.
+  repeat split; assumption.
 Qed.
 
 Lemma https_parse_wf : forall s n, https_parse s = Some n -> https_wf n.
@@ -204,4 +205,702 @@ Proof.
   rewrite nstack_app. rewrite (nstack_normal [lower (r_auth u); r_mod u] st).
   - cbn [rev app]. exact Hst.
   - cbn [forallb]. rewrite (normalb_lower _ Na), Nm. reflexivity.
+Qed.
+
+(* ------------------------------------------------------------------ *)
+(* digest-named components *)
+
+Definition is_hexlow (c : N) : bool := is_digit c || ((97 <=? c) && (c <=? 102)).
+(* non-empty, lower-case hex digits only *)
+Definition hexlike (s : bstr) : bool := match s with [] => false | _ => forallb is_hexlow s end.
+
+Lemma hexlow_not : forall c x, is_hexlow c = true -> is_hexlow x = false -> c <> x.
+Proof. intros c x H1 H2 E; subst; congruence. Qed.
+
+Lemma forall_hexlow_no : forall s x, forallb is_hexlow s = true -> is_hexlow x = false -> memb x s = false.
+Proof.
+  induction s as [|c s IH]; intros x H Hx; [reflexivity|].
+  cbn [forallb] in H. apply andb_true_iff in H. destruct H as [H1 H2].
+  unfold memb; cbn [existsb]. fold (memb x s). rewrite (IH x H2 Hx).
+  destruct (N.eqb_spec x c) as [->|]; [congruence | reflexivity].
+Qed.
+
+Lemma hexlike_no : forall s x, hexlike s = true -> is_hexlow x = false -> memb x s = false.
+Proof. intros [|c s] x H Hx; [discriminate|]. apply forall_hexlow_no; assumption. Qed.
+
+Lemma hexlike_ext_no_slash : forall h ext, hexlike h = true -> memb SLASH ext = false -> memb SLASH (h ++ ext) = false.
+Proof. intros h ext H He. rewrite memb_app, He, (hexlike_no h SLASH H); reflexivity. Qed.
+
+Lemma hexlike_ext_normal : forall h ext, hexlike h = true -> normalb (h ++ ext) = true.
+Proof.
+  intros [|c h] ext H; [discriminate|]. cbn [hexlike forallb] in H. apply andb_true_iff in H. destruct H as [Hc _].
+  cbn [app normalb beqb]. destruct (N.eqb_spec c DOT) as [->|]; [discriminate|]. reflexivity.
+Qed.
+
+(* a digest-named component differs from every name that contains a non-hex character *)
+Lemma hexlike_neq : forall h s x, hexlike h = true -> is_hexlow x = false -> memb x s = true -> h <> s.
+Proof. intros h s x H Hx Hs E; subst. rewrite (hexlike_no s x H Hx) in Hs. discriminate. Qed.
+
+(* fixed... / A / Hc : whatever the single component A is, Hc ends up on top *)
+Lemma hashed_tail : forall fixed A Hc,
+  forallb normalb fixed = true -> fixed <> [] -> normalb Hc = true ->
+  exists st', nstack [] (fixed ++ [A; Hc]) = Some (Hc :: st').
+Proof.
+  intros fixed A Hc Hf Hne Hn.
+  assert (Hc1 : forall st, nstack st [Hc] = Some (Hc :: st)).
+  { intros st. apply (nstack_normal [Hc] st). cbn [forallb]. rewrite Hn. reflexivity. }
+  rewrite nstack_app, (nstack_normal _ _ Hf), app_nil_r.
+  change [A; Hc] with ([A] ++ [Hc]). rewrite nstack_app. cbn [nstack].
+  destruct A as [|a0 a']; [eexists; apply Hc1|].
+  destruct (beqb (a0 :: a') [DOT]); [eexists; apply Hc1|].
+  destruct (beqb (a0 :: a') [DOT; DOT]); [|eexists; apply Hc1].
+  destruct (rev fixed) as [|t st] eqn:E.
+  - exfalso. apply Hne. rewrite <- (rev_involutive fixed), E. reflexivity.
+  - eexists; apply Hc1.
+Qed.
+
+Definition root_ok (cache : bstr) : Prop := exists sr, nstack [] (comps cache) = Some sr.
+
+Lemma hashed_path : forall cache ps fixed A Hc sr,
+  forallb (fun p => negb (is_absolute p)) ps = true ->
+  flat_map comps ps = fixed ++ [A; Hc] ->
+  forallb normalb fixed = true -> fixed <> [] -> normalb Hc = true ->
+  nstack [] (comps cache) = Some sr ->
+  exists st', nstack [] (comps (pushes cache ps)) = Some ((Hc :: st') ++ sr).
+Proof.
+  intros cache ps fixed A Hc sr Hrel Hps Hf Hne Hn Hr.
+  destruct (hashed_tail fixed A Hc Hf Hne Hn) as [st' Hst].
+  exists st'. apply under_pushes; [exact Hrel | exact Hr | rewrite Hps; exact Hst].
+Qed.
+
+Lemma rev_inj : forall (a b : list bstr), rev a = rev b -> a = b.
+Proof. intros a b H. rewrite <- (rev_involutive a), H, rev_involutive. reflexivity. Qed.
+
+Lemma head_of_norm : forall p q c d st st2 sr,
+  nstack [] (comps p) = Some ((c :: st) ++ sr) -> nstack [] (comps q) = Some ((d :: st2) ++ sr) ->
+  norm p = norm q -> c = d.
+Proof.
+  intros p q c d st st2 sr Hp Hq H. unfold norm in H. rewrite Hp, Hq in H.
+  assert (E : (c :: st) ++ sr = (d :: st2) ++ sr).
+  { apply rev_inj. unfold option_map in H. congruence. }
+  cbn [app] in E. congruence.
+Qed.
+
+Lemma app_inv_len : forall (a a' b b' : bstr), List.length a = List.length a' -> a ++ b = a' ++ b' -> a = a' /\ b = b'.
+Proof.
+  induction a as [|x a IH]; intros [|y a'] b b' Hl H; cbn [List.length] in Hl; try discriminate.
+  - auto.
+  - cbn [app] in H. inversion H; subst. destruct (IH a' b b' ltac:(lia) H2) as [-> ->]. auto.
+Qed.
+
+Lemma rsync_digest_input_inj : forall u v, rsync_wf u -> rsync_wf v ->
+  rsync_digest_input u = rsync_digest_input v -> rsync_eqv u v.
+Proof.
+  intros u v (_ & Hau & _ & Hmu & _) (_ & Hav & _ & Hmv & _) H. unfold rsync_digest_input in H.
+  apply app_inv_head in H.
+  apply app_sep_inj in H; [|rewrite memb_slash_lower; assumption..]. destruct H as [H1 H2].
+  apply app_sep_inj in H2; [|assumption..]. destruct H2 as [H2 H3].
+  unfold rsync_eqv. auto.
+Qed.
+
+Lemma https_digest_input_inj : forall n m, https_wf n -> https_wf m ->
+  https_digest_input n = https_digest_input m -> https_eqv n m.
+Proof.
+  intros n m (_ & Han & _) (_ & Ham & _) H. unfold https_digest_input in H.
+  apply app_inv_head in H.
+  apply app_sep_inj in H; [|rewrite memb_slash_lower; assumption..]. destruct H as [H1 H2].
+  unfold https_eqv. auto.
+Qed.
+
+Lemma https_raw_inj : forall n m, https_wf n -> https_wf m -> https_raw n = https_raw m -> https_eqv n m.
+Proof.
+  intros [sn an pn] [sm am pm] (Hln & Han & Hpn) (Hlm & Ham & Hpm) H. unfold https_raw in H.
+  cbn [h_scheme h_auth h_path] in *.
+  apply app_inv_len in H; [|congruence]. destruct H as [_ H]. unfold https_eqv. cbn [h_auth h_path].
+  destruct Hpn as [->|[p ->]], Hpm as [->|[q ->]].
+  - rewrite !app_nil_r in H. subst. auto.
+  - rewrite app_nil_r in H. rewrite H, memb_app in Han. unfold memb at 2 in Han. cbn [existsb] in Han.
+    rewrite N.eqb_refl in Han. rewrite orb_true_r in Han. discriminate.
+  - rewrite app_nil_r in H. rewrite <- H, memb_app in Ham. unfold memb at 2 in Ham. cbn [existsb] in Ham.
+    rewrite N.eqb_refl in Ham. rewrite orb_true_r in Ham. discriminate.
+  - apply app_sep_inj in H; [|assumption..]. destruct H as [-> ->]. auto.
+Qed.
+
+Section Hashed.
+Variable hd : bstr -> bstr.
+(* no two digest inputs of interest (those satisfying D) collide; hex rendering of a digest *)
+Variable D : bstr -> Prop.
+Hypothesis hd_injective : forall x y, D x -> D y -> hd x = hd y -> x = y.
+Hypothesis hd_shape : forall x, hexlike (hd x) = true.
+
+Lemma unique_path_comps : forall prefix auth x ext,
+  prefix <> [] -> memb SLASH auth = false -> memb SLASH ext = false ->
+  comps (unique_path hd prefix auth x ext) = comps prefix ++ [auth; hd x ++ ext].
+Proof.
+  intros prefix auth x ext Hp Ha He. unfold unique_path. destruct prefix as [|c pr]; [congruence|].
+  rewrite <- app_assoc. cbn [app]. change (c :: pr ++ SLASH :: auth ++ SLASH :: hd x ++ ext)
+    with ((c :: pr) ++ SLASH :: auth ++ SLASH :: hd x ++ ext).
+  rewrite comps_app_sep, comps_app_sep, (comps_single _ Ha), (comps_single (hd x ++ ext)); [reflexivity|].
+  apply hexlike_ext_no_slash; [apply hd_shape | exact He].
+Qed.
+
+Lemma unique_path_not_absolute : forall prefix auth x ext,
+  prefix <> [] -> is_absolute prefix = false -> is_absolute (unique_path hd prefix auth x ext) = false.
+Proof.
+  intros prefix auth x ext Hp Ha. unfold unique_path. destruct prefix as [|c pr]; [congruence|]. exact Ha.
+Qed.
+
+(* ---- the store's unique paths: TA certificates and RRDP repository directories ---- *)
+
+Definition store_unique (cache prefix auth x ext : bstr) : bstr :=
+  push (store_base cache) (unique_path hd prefix auth x ext).
+
+Lemma store_unique_nstack : forall cache prefix auth x ext sr,
+  prefix <> [] -> is_absolute prefix = false -> forallb normalb (comps prefix) = true ->
+  memb SLASH auth = false -> memb SLASH ext = false ->
+  nstack [] (comps cache) = Some sr ->
+  exists st', nstack [] (comps (store_unique cache prefix auth x ext)) = Some (((hd x ++ ext) :: st') ++ sr).
+Proof.
+  intros cache prefix auth x ext sr Hp Habs Hn Ha He Hr.
+  change (store_unique cache prefix auth x ext)
+    with (pushes cache [bytes_of "stored"; unique_path hd prefix auth x ext]).
+  apply (hashed_path cache _ (C_stored :: comps prefix) auth (hd x ++ ext) sr).
+  - cbn [forallb]. rewrite (unique_path_not_absolute _ _ _ _ Hp Habs). reflexivity.
+  - cbn [flat_map]. rewrite (unique_path_comps _ _ _ _ Hp Ha He), app_nil_r. reflexivity.
+  - cbn [forallb]. rewrite Hn. reflexivity.
+  - discriminate.
+  - apply hexlike_ext_normal, hd_shape.
+  - exact Hr.
+Qed.
+
+Definition tal_wf (t : tal_uri) : Prop := match t with TalRsync u => rsync_wf u | TalHttps n => https_wf n end.
+Definition tal_eqv (s t : tal_uri) : Prop :=
+  match s, t with
+  | TalRsync u, TalRsync v => rsync_eqv u v
+  | TalHttps n, TalHttps m => https_eqv n m
+  | _, _ => False
+  end.
+
+Definition tal_input (t : tal_uri) : bstr :=
+  match t with TalRsync u => rsync_digest_input u | TalHttps n => https_digest_input n end.
+
+Lemma ta_path_nstack : forall cache t sr, tal_wf t -> nstack [] (comps cache) = Some sr ->
+  exists st', nstack [] (comps (ta_path hd cache t)) = Some (((hd (tal_input t) ++ bytes_of ".cer") :: st') ++ sr).
+Proof.
+  intros cache t sr Hw Hr. destruct t as [u|n]; cbn [tal_wf tal_input] in *.
+  - destruct Hw as (_ & Ha & _).
+    apply (store_unique_nstack cache (bytes_of "ta/rsync") (lower (r_auth u)) (rsync_digest_input u) (bytes_of ".cer") sr);
+      try reflexivity; try discriminate; [rewrite memb_slash_lower; exact Ha | exact Hr].
+  - destruct Hw as (_ & Ha & _).
+    apply (store_unique_nstack cache (bytes_of "ta/https") (lower (h_auth n)) (https_digest_input n) (bytes_of ".cer") sr);
+      try reflexivity; try discriminate; [rewrite memb_slash_lower; exact Ha | exact Hr].
+Qed.
+
+Theorem ta_path_confined : forall cache t, tal_wf t -> root_ok cache -> under cache (ta_path hd cache t).
+Proof.
+  intros cache t Hw [sr Hr]. destruct (ta_path_nstack cache t sr Hw Hr) as [st' H].
+  exists sr, ((hd (tal_input t) ++ bytes_of ".cer") :: st'). auto.
+Qed.
+
+Theorem ta_path_distinct : forall cache s t, tal_wf s -> tal_wf t -> root_ok cache ->
+  D (tal_input s) -> D (tal_input t) ->
+  norm (ta_path hd cache s) = norm (ta_path hd cache t) -> tal_eqv s t.
+Proof.
+  intros cache s t Hs Ht [sr Hr] Ds Dt H.
+  destruct (ta_path_nstack cache s sr Hs Hr) as [st1 H1]. destruct (ta_path_nstack cache t sr Ht Hr) as [st2 H2].
+  pose proof (head_of_norm _ _ _ _ _ _ _ H1 H2 H) as E.
+  apply app_inv_tail, hd_injective in E; [|assumption..].
+  destruct s as [u|n], t as [v|m]; cbn [tal_input tal_eqv tal_wf] in *.
+  - apply rsync_digest_input_inj; assumption.
+  - unfold rsync_digest_input, https_digest_input in E. discriminate.
+  - unfold rsync_digest_input, https_digest_input in E. discriminate.
+  - apply https_digest_input_inj; assumption.
+Qed.
+
+Lemma repo_path_nstack : forall cache n sr, https_wf n -> nstack [] (comps cache) = Some sr ->
+  exists st', nstack [] (comps (rrdp_repository_path hd cache n)) = Some ((hd (https_digest_input n) :: st') ++ sr).
+Proof.
+  intros cache n sr (_ & Ha & _) Hr.
+  destruct (store_unique_nstack cache (bytes_of "rrdp") (lower (h_auth n)) (https_digest_input n) [] sr)
+    as [st' H]; try reflexivity; try discriminate; [rewrite memb_slash_lower; exact Ha | exact Hr |].
+  rewrite app_nil_r in H. exists st'. exact H.
+Qed.
+
+Theorem repo_path_confined : forall cache n, https_wf n -> root_ok cache -> under cache (rrdp_repository_path hd cache n).
+Proof.
+  intros cache n Hw [sr Hr]. destruct (repo_path_nstack cache n sr Hw Hr) as [st' H].
+  exists sr, (hd (https_digest_input n) :: st'). auto.
+Qed.
+
+Theorem repo_path_distinct : forall cache n m, https_wf n -> https_wf m -> root_ok cache ->
+  D (https_digest_input n) -> D (https_digest_input m) ->
+  norm (rrdp_repository_path hd cache n) = norm (rrdp_repository_path hd cache m) -> https_eqv n m.
+Proof.
+  intros cache n m Hn Hm [sr Hr] Dn Dm H.
+  destruct (repo_path_nstack cache n sr Hn Hr) as [st1 H1]. destruct (repo_path_nstack cache m sr Hm Hr) as [st2 H2].
+  pose proof (head_of_norm _ _ _ _ _ _ _ H1 H2 H) as E. apply hd_injective in E; [|assumption..].
+  apply https_digest_input_inj; assumption.
+Qed.
+
+(* ---- the RRDP collector's archive files ---- *)
+
+Lemma archive_path_nstack : forall cache n sr, https_wf n -> nstack [] (comps cache) = Some sr ->
+  exists st', nstack [] (comps (archive_path hd cache n)) = Some (((hd (https_raw n) ++ bytes_of ".bin") :: st') ++ sr).
+Proof.
+  intros cache n sr (_ & Ha & _) Hr.
+  assert (Ha' : memb SLASH (lower (h_auth n)) = false) by (rewrite memb_slash_lower; exact Ha).
+  assert (Hb : memb SLASH (hd (https_raw n) ++ bytes_of ".bin") = false)
+    by (apply hexlike_ext_no_slash; [apply hd_shape | reflexivity]).
+  change (archive_path hd cache n)
+    with (pushes cache [bytes_of "rrdp"; lower (h_auth n); hd (https_raw n) ++ bytes_of ".bin"]).
+  apply (hashed_path cache _ [C_rrdp] (lower (h_auth n)) (hd (https_raw n) ++ bytes_of ".bin") sr).
+  - cbn [forallb]. rewrite (no_slash_not_absolute _ Ha'), (no_slash_not_absolute _ Hb). reflexivity.
+  - cbn [flat_map]. rewrite (comps_single _ Ha'), (comps_single _ Hb). reflexivity.
+  - reflexivity.
+  - discriminate.
+  - apply hexlike_ext_normal, hd_shape.
+  - exact Hr.
+Qed.
+
+Theorem archive_path_confined : forall cache n, https_wf n -> root_ok cache -> under cache (archive_path hd cache n).
+Proof.
+  intros cache n Hw [sr Hr]. destruct (archive_path_nstack cache n sr Hw Hr) as [st' H].
+  exists sr, ((hd (https_raw n) ++ bytes_of ".bin") :: st'). auto.
+Qed.
+
+Theorem archive_path_distinct : forall cache n m, https_wf n -> https_wf m -> root_ok cache ->
+  D (https_raw n) -> D (https_raw m) ->
+  norm (archive_path hd cache n) = norm (archive_path hd cache m) -> https_eqv n m.
+Proof.
+  intros cache n m Hn Hm [sr Hr] Dn Dm H.
+  destruct (archive_path_nstack cache n sr Hn Hr) as [st1 H1]. destruct (archive_path_nstack cache m sr Hm Hr) as [st2 H2].
+  pose proof (head_of_norm _ _ _ _ _ _ _ H1 H2 H) as E. apply app_inv_tail, hd_injective in E; [|assumption..].
+  apply https_raw_inj; assumption.
+Qed.
+
+End Hashed.
+
+(* ------------------------------------------------------------------ *)
+(* paths that spell out authority / module / path *)
+
+Lemma last_app_ne : forall (a b : list bstr) d, b <> [] -> last (a ++ b) d = last b d.
+Proof.
+  induction a as [|x a IH]; intros b d Hb; [reflexivity|].
+  cbn [app]. destruct (a ++ b) eqn:E.
+  - destruct a; [cbn [app] in E; congruence | discriminate].
+  - rewrite <- E. cbn [last]. rewrite E. rewrite <- E. apply IH; exact Hb.
+Qed.
+
+Lemma dirflag_push : forall b p, is_absolute p = false -> dirflag (push b p) = dirflag p.
+Proof.
+  intros b p Hp. unfold dirflag, push. rewrite Hp. destruct b as [|x b'] eqn:Eb; [reflexivity|].
+  rewrite <- Eb. assert (Hne : b <> []) by (subst; discriminate).
+  destruct (ends_with_slash b) eqn:E.
+  - unfold ends_with_slash in E. rewrite Eb in E. rewrite <- Eb in E. apply N.eqb_eq in E.
+    destruct (exists_last Hne) as [b0 [y Hb]]. rewrite Hb in E. rewrite last_snoc in E. subst y.
+    rewrite Hb, <- app_assoc. cbn [app]. rewrite comps_app_sep, last_app_ne; [reflexivity | apply comps_nonempty].
+  - rewrite comps_app_sep, last_app_ne; [reflexivity | apply comps_nonempty].
+Qed.
+
+Definition pflag (p : bstr) : bool := match last (comps p) [DOT] with [] => true | _ => false end.
+
+(* a checked path is determined by its normal components and whether it ends in '/' *)
+Lemma path_from_shape : forall p q ns,
+  ((comps p = ns /\ last (comps p) [DOT] <> []) \/ comps p = ns ++ [[]]) ->
+  ((comps q = ns /\ last (comps q) [DOT] <> []) \/ comps q = ns ++ [[]]) ->
+  pflag p = pflag q -> p = q.
+Proof.
+  intros p q ns Hp Hq Hf.
+  assert (E : comps p = comps q).
+  { unfold pflag in Hf. destruct Hp as [[Ep Lp]|Ep], Hq as [[Eq Lq]|Eq].
+    - congruence.
+    - exfalso. rewrite Eq, last_last in Hf. destruct (last (comps p) [DOT]); [congruence | discriminate].
+    - exfalso. rewrite Ep, last_last in Hf. destruct (last (comps q) [DOT]); [congruence | discriminate].
+    - congruence. }
+  rewrite <- (join_split SLASH p), <- (join_split SLASH q). unfold comps in E. rewrite E. reflexivity.
+Qed.
+
+Lemma tail_inj : forall (x y : list bstr) a b c d B,
+  x ++ a :: b :: B = y ++ c :: d :: B -> x = y /\ a = c /\ b = d.
+Proof.
+  intros x y a b c d B H.
+  change (x ++ a :: b :: B) with (x ++ [a; b] ++ B) in H. change (y ++ c :: d :: B) with (y ++ [c; d] ++ B) in H.
+  rewrite !app_assoc in H. apply app_inv_tail in H.
+  change [a; b] with ([a] ++ [b]) in H. change [c; d] with ([c] ++ [d]) in H. rewrite !app_assoc in H.
+  apply app_inj_tail in H. destruct H as [H ->]. apply app_inj_tail in H. destruct H as [-> ->]. auto.
+Qed.
+
+(* two rsync URIs whose  authority/module/path  tails resolve to the same stack over the same base *)
+Lemma rsync_tail_distinct : forall u v nsu nsv B,
+  rev nsu ++ r_mod u :: lower (r_auth u) :: B = rev nsv ++ r_mod v :: lower (r_auth v) :: B ->
+  ((comps (r_path u) = nsu /\ last (comps (r_path u)) [DOT] <> []) \/ comps (r_path u) = nsu ++ [[]]) ->
+  ((comps (r_path v) = nsv /\ last (comps (r_path v)) [DOT] <> []) \/ comps (r_path v) = nsv ++ [[]]) ->
+  pflag (r_path u) = pflag (r_path v) -> rsync_eqv u v.
+Proof.
+  intros u v nsu nsv B H Su Sv Hf. apply tail_inj in H. destruct H as [Hn [Hm Ha]].
+  apply rev_inj in Hn. subst nsv. unfold rsync_eqv. repeat split; try assumption.
+  apply (path_from_shape _ _ nsu); assumption.
+Qed.
+
+Lemma C_consts_relative : is_absolute (bytes_of "rsync") = false /\ is_absolute (bytes_of "stored") = false.
+Proof. split; reflexivity. Qed.
+
+(* ---- rsync collector: cache/rsync/authority/module/path ---- *)
+
+Lemma uri_path_nstack : forall cache u sr, rsync_wf u -> nstack [] (comps cache) = Some sr ->
+  exists ns, forallb normalb ns = true /\
+    nstack [] (comps (uri_path cache u)) = Some (rev ns ++ r_mod u :: lower (r_auth u) :: C_rsync :: sr) /\
+    ((comps (r_path u) = ns /\ last (comps (r_path u)) [DOT] <> []) \/ comps (r_path u) = ns ++ [[]]).
+Proof.
+  intros cache u sr Hw Hr. pose proof Hw as (Hl & Ha & Na & Hm & Nm & Hp).
+  assert (Ha' : memb SLASH (lower (r_auth u)) = false) by (rewrite memb_slash_lower; exact Ha).
+  destruct (rsync_tail_nstack u (C_rsync :: sr) Hw) as [ns [Hns [Hst Hc]]].
+  exists ns. split; [exact Hns|]. split; [|exact Hc].
+  change (uri_path cache u) with (pushes cache [bytes_of "rsync"; lower (r_auth u); r_mod u; r_path u]).
+  rewrite comps_pushes_rel.
+  - cbn [flat_map]. rewrite (comps_single _ Ha'), (comps_single _ Hm), app_nil_r.
+    rewrite nstack_app, Hr. change (comps (bytes_of "rsync")) with [C_rsync]. cbn [app].
+    change (nstack sr (C_rsync :: lower (r_auth u) :: r_mod u :: comps (r_path u)))
+      with (nstack (C_rsync :: sr) ([lower (r_auth u); r_mod u] ++ comps (r_path u))).
+    exact Hst.
+  - cbn [forallb]. rewrite (no_slash_not_absolute _ Ha'), (no_slash_not_absolute _ Hm), (cpi_not_absolute _ Hp). reflexivity.
+Qed.
+
+Theorem uri_path_confined : forall cache u, rsync_wf u -> root_ok cache -> under cache (uri_path cache u).
+Proof.
+  intros cache u Hw [sr Hr]. destruct (uri_path_nstack cache u sr Hw Hr) as [ns [_ [H _]]].
+  exists sr, (rev ns ++ [r_mod u; lower (r_auth u); C_rsync]). split; [exact Hr|].
+  rewrite H, <- app_assoc. reflexivity.
+Qed.
+
+Lemma uri_path_dirflag : forall cache u, rsync_wf u -> dirflag (uri_path cache u) = pflag (r_path u).
+Proof.
+  intros cache u (_ & _ & _ & _ & _ & Hp).
+  change (uri_path cache u) with (push (pushes cache [bytes_of "rsync"; lower (r_auth u); r_mod u]) (r_path u)).
+  rewrite dirflag_push; [reflexivity | apply cpi_not_absolute; exact Hp].
+Qed.
+
+Lemma norm_eq_stack : forall p q a b, nstack [] (comps p) = Some a -> nstack [] (comps q) = Some b ->
+  norm p = norm q -> a = b.
+Proof.
+  intros p q a b Hp Hq H. unfold norm in H. rewrite Hp, Hq in H. apply rev_inj. unfold option_map in H. congruence.
+Qed.
+
+Theorem uri_path_distinct : forall cache u v, rsync_wf u -> rsync_wf v -> root_ok cache ->
+  fid (uri_path cache u) = fid (uri_path cache v) -> rsync_eqv u v.
+Proof.
+  intros cache u v Hu Hv [sr Hr] H. unfold fid in H. inversion H as [[Hn Hd]].
+  destruct (uri_path_nstack cache u sr Hu Hr) as [nsu [_ [Su Cu]]].
+  destruct (uri_path_nstack cache v sr Hv Hr) as [nsv [_ [Sv Cv]]].
+  pose proof (norm_eq_stack _ _ _ _ Su Sv Hn) as E.
+  rewrite !uri_path_dirflag in Hd by assumption.
+  apply (rsync_tail_distinct u v nsu nsv (C_rsync :: sr)); assumption.
+Qed.
+
+(* the module directory: cache/rsync/authority/module/ *)
+Lemma module_path_nstack : forall cache u sr, rsync_wf u -> nstack [] (comps cache) = Some sr ->
+  nstack [] (comps (module_path cache u)) = Some (r_mod u :: lower (r_auth u) :: C_rsync :: sr).
+Proof.
+  intros cache u sr Hw Hr. pose proof Hw as (Hl & Ha & Na & Hm & Nm & Hp).
+  assert (Ha' : memb SLASH (lower (r_auth u)) = false) by (rewrite memb_slash_lower; exact Ha).
+  unfold module_path. rewrite (canonical_module_tail u Hw).
+  change (push (rsync_wd cache) (lower (r_auth u) ++ SLASH :: r_mod u ++ [SLASH]))
+    with (pushes cache [bytes_of "rsync"; lower (r_auth u) ++ SLASH :: r_mod u ++ [SLASH]]).
+  rewrite comps_pushes_rel.
+  - cbn [flat_map]. rewrite comps_app_sep, comps_app_sep, (comps_single _ Ha'), (comps_single _ Hm), app_nil_r.
+    rewrite nstack_app, Hr. change (comps (bytes_of "rsync")) with [C_rsync]. change (comps []) with [@nil N].
+    cbn [app].
+    change (nstack sr [C_rsync; lower (r_auth u); r_mod u; []])
+      with (nstack sr ([C_rsync; lower (r_auth u); r_mod u] ++ [[]])).
+    rewrite nstack_app, (nstack_normal [C_rsync; lower (r_auth u); r_mod u] sr).
+    + reflexivity.
+    + cbn [forallb]. rewrite (normalb_lower _ Na), Nm. reflexivity.
+  - cbn [forallb]. replace (is_absolute (lower (r_auth u) ++ SLASH :: r_mod u ++ [SLASH])) with false; [reflexivity|].
+    symmetry. destruct (lower (r_auth u)) as [|c t] eqn:E.
+    + apply normalb_lower in Na. rewrite E in Na. discriminate.
+    + cbn [app is_absolute]. unfold memb in Ha'; cbn [existsb] in Ha'. apply orb_false_iff in Ha'.
+      destruct Ha' as [Hc _]. rewrite N.eqb_sym. exact Hc.
+Qed.
+
+Theorem module_path_confined : forall cache u, rsync_wf u -> root_ok cache -> under cache (module_path cache u).
+Proof.
+  intros cache u Hw [sr Hr]. exists sr, [r_mod u; lower (r_auth u); C_rsync]. split; [exact Hr|].
+  rewrite (module_path_nstack cache u sr Hw Hr). reflexivity.
+Qed.
+
+(* module directories coincide only for URIs of the same module *)
+Theorem module_path_distinct : forall cache u v, rsync_wf u -> rsync_wf v -> root_ok cache ->
+  norm (module_path cache u) = norm (module_path cache v) ->
+  lower (r_auth u) = lower (r_auth v) /\ r_mod u = r_mod v.
+Proof.
+  intros cache u v Hu Hv [sr Hr] H.
+  pose proof (norm_eq_stack _ _ _ _ (module_path_nstack cache u sr Hu Hr) (module_path_nstack cache v sr Hv Hr) H) as E.
+  inversion E; auto.
+Qed.
+
+(* ---- Store::dump_object: dir/authority/module/path ---- *)
+
+Lemma dump_object_nstack : forall dir u sr, rsync_wf u -> nstack [] (comps dir) = Some sr ->
+  exists ns, forallb normalb ns = true /\
+    nstack [] (comps (dump_object_path dir u)) = Some (rev ns ++ r_mod u :: lower (r_auth u) :: sr) /\
+    ((comps (r_path u) = ns /\ last (comps (r_path u)) [DOT] <> []) \/ comps (r_path u) = ns ++ [[]]).
+Proof.
+  intros dir u sr Hw Hr.
+  destruct (rsync_tail_nstack u sr Hw) as [ns [Hns [Hst Hc]]].
+  exists ns. split; [exact Hns|]. split; [|exact Hc].
+  unfold dump_object_path. rewrite (comps_push_rel _ _ _ (rsync_rel_not_absolute u Hw)).
+  rewrite nstack_app, Hr, (rsync_rel_comps u Hw). exact Hst.
+Qed.
+
+Theorem dump_object_confined : forall dir u, rsync_wf u -> root_ok dir -> under dir (dump_object_path dir u).
+Proof.
+  intros dir u Hw [sr Hr]. destruct (dump_object_nstack dir u sr Hw Hr) as [ns [_ [H _]]].
+  exists sr, (rev ns ++ [r_mod u; lower (r_auth u)]). split; [exact Hr|].
+  rewrite H, <- app_assoc. reflexivity.
+Qed.
+
+Lemma rsync_rel_dirflag : forall u, rsync_wf u -> dirflag (rsync_rel u) = pflag (r_path u).
+Proof.
+  intros u Hw. unfold dirflag, pflag. rewrite (rsync_rel_comps u Hw), last_app_ne; [reflexivity | apply comps_nonempty].
+Qed.
+
+Theorem dump_object_distinct : forall dir u v, rsync_wf u -> rsync_wf v -> root_ok dir ->
+  fid (dump_object_path dir u) = fid (dump_object_path dir v) -> rsync_eqv u v.
+Proof.
+  intros dir u v Hu Hv [sr Hr] H. unfold fid in H. inversion H as [[Hn Hd]].
+  destruct (dump_object_nstack dir u sr Hu Hr) as [nsu [_ [Su Cu]]].
+  destruct (dump_object_nstack dir v sr Hv Hr) as [nsv [_ [Sv Cv]]].
+  pose proof (norm_eq_stack _ _ _ _ Su Sv Hn) as E.
+  unfold dump_object_path in Hd.
+  rewrite !dirflag_push, !rsync_rel_dirflag in Hd by (try apply rsync_rel_not_absolute; assumption).
+  apply (rsync_tail_distinct u v nsu nsv sr); assumption.
+Qed.
+
+(* ---- stored publication points: <repository directory>/rsync/authority/module/path ---- *)
+
+Lemma nstack_one : forall st (A : bstr),
+  nstack st [A] = match A with
+                  | [] => Some st
+                  | _ => if beqb A [DOT] then Some st
+                         else if beqb A [DOT; DOT] then match st with [] => None | _ :: st' => Some st' end
+                         else Some (A :: st)
+                  end.
+Proof.
+  intros st [|a0 a']; [reflexivity|]. cbn [nstack].
+  destruct (beqb (a0 :: a') [DOT]); [reflexivity|].
+  destruct (beqb (a0 :: a') [DOT; DOT]); [destruct st; reflexivity | reflexivity].
+Qed.
+
+Lemma repo_tail_stack : forall (A H : bstr) sr, normalb H = true ->
+  exists R, (R = [H; A; C_rrdp; C_stored] \/ R = [H; C_rrdp; C_stored] \/ R = [H; C_stored]) /\
+    nstack sr ([C_stored; C_rrdp] ++ [A] ++ [H]) = Some (R ++ sr).
+Proof.
+  intros A H sr HH.
+  assert (Hc1 : forall st, nstack st [H] = Some (H :: st)).
+  { intros st. apply (nstack_normal [H] st). cbn [forallb]. rewrite HH. reflexivity. }
+  assert (E : nstack sr ([C_stored; C_rrdp] ++ [A] ++ [H])
+            = match nstack (C_rrdp :: C_stored :: sr) [A] with Some st => nstack st [H] | None => None end).
+  { rewrite nstack_app. rewrite (nstack_normal [C_stored; C_rrdp] sr) by reflexivity.
+    cbv beta iota. cbn [rev app].
+    change (nstack (C_rrdp :: C_stored :: sr) [A; H]) with (nstack (C_rrdp :: C_stored :: sr) ([A] ++ [H])).
+    rewrite nstack_app. reflexivity. }
+  rewrite E. clear E. rewrite nstack_one.
+  destruct A as [|a0 a'].
+  - exists [H; C_rrdp; C_stored]. split; [right; left; reflexivity|]. rewrite Hc1. reflexivity.
+  - destruct (beqb (a0 :: a') [DOT]).
+    + exists [H; C_rrdp; C_stored]. split; [right; left; reflexivity|]. rewrite Hc1. reflexivity.
+    + destruct (beqb (a0 :: a') [DOT; DOT]).
+      * exists [H; C_stored]. split; [right; right; reflexivity|]. rewrite Hc1. reflexivity.
+      * exists [H; a0 :: a'; C_rrdp; C_stored]. split; [left; reflexivity|]. rewrite Hc1. reflexivity.
+Qed.
+
+Section Points.
+Variable hd : bstr -> bstr.
+Variable D : bstr -> Prop.
+Hypothesis hd_injective : forall x y, D x -> D y -> hd x = hd y -> x = y.
+Hypothesis hd_shape : forall x, hexlike (hd x) = true.
+
+(* the resolved repository directory, relative to the cache directory (top first) *)
+Definition repo_stack (r : option https_uri) (R : list bstr) : Prop :=
+  match r with
+  | None => R = [C_rsync; C_stored]
+  | Some n => let H := hd (https_digest_input n) in
+              R = [H; lower (h_auth n); C_rrdp; C_stored] \/ R = [H; C_rrdp; C_stored] \/ R = [H; C_stored]
+  end.
+
+Definition repo_wf (r : option https_uri) : Prop :=
+  match r with Some n => https_wf n /\ D (https_digest_input n) | None => True end.
+Definition repo_eqv (r s : option https_uri) : Prop :=
+  match r, s with
+  | None, None => True
+  | Some n, Some m => https_eqv n m
+  | _, _ => False
+  end.
+
+Definition repo_dir (cache : bstr) (r : option https_uri) : bstr :=
+  match r with Some n => rrdp_repository_path hd cache n | None => rsync_repository_path cache end.
+
+Lemma repo_dir_stack : forall cache r sr, repo_wf r -> nstack [] (comps cache) = Some sr ->
+  exists R, repo_stack r R /\ nstack [] (comps (repo_dir cache r)) = Some (R ++ sr).
+Proof.
+  intros cache r sr Hw Hr. destruct r as [n|]; cbn [repo_dir repo_stack repo_wf] in *.
+  - destruct Hw as ((_ & Ha & _) & _).
+    assert (Ha' : memb SLASH (lower (h_auth n)) = false) by (rewrite memb_slash_lower; exact Ha).
+    set (H := hd (https_digest_input n)).
+    assert (HH : normalb H = true).
+    { rewrite <- (app_nil_r H). apply hexlike_ext_normal, hd_shape. }
+    assert (HHs : memb SLASH H = false) by (apply hexlike_no; [apply hd_shape | reflexivity]).
+    change (rrdp_repository_path hd cache n)
+      with (pushes cache [bytes_of "stored"; https_unique_path hd (bytes_of "rrdp") [] n]).
+    assert (Hcomps : flat_map comps [bytes_of "stored"; https_unique_path hd (bytes_of "rrdp") [] n]
+                     = [C_stored; C_rrdp] ++ [lower (h_auth n)] ++ [H]).
+    { cbn [flat_map]. unfold https_unique_path.
+      rewrite (unique_path_comps hd hd_shape); [|discriminate | exact Ha' | reflexivity].
+      rewrite !app_nil_r. reflexivity. }
+    rewrite comps_pushes_rel, Hcomps.
+    2:{ cbn [forallb]. unfold https_unique_path.
+        rewrite (unique_path_not_absolute hd); [reflexivity | discriminate | reflexivity]. }
+    rewrite nstack_app, Hr. cbv beta iota. apply repo_tail_stack. exact HH.
+  - exists [C_rsync; C_stored]. split; [reflexivity|].
+    change (rsync_repository_path cache) with (pushes cache [bytes_of "stored"; bytes_of "rsync"]).
+    rewrite comps_pushes_rel by reflexivity. rewrite nstack_app, Hr. reflexivity.
+Qed.
+
+Lemma point_path_nstack : forall cache r m sr, repo_wf r -> rsync_wf m -> nstack [] (comps cache) = Some sr ->
+  exists ns R, forallb normalb ns = true /\ repo_stack r R /\
+    nstack [] (comps (point_path hd cache r m)) =
+      Some (rev ns ++ r_mod m :: lower (r_auth m) :: (C_rsync :: R) ++ sr) /\
+    ((comps (r_path m) = ns /\ last (comps (r_path m)) [DOT] <> []) \/ comps (r_path m) = ns ++ [[]]).
+Proof.
+  intros cache r m sr Hrw Hw Hr.
+  destruct (repo_dir_stack cache r sr Hrw Hr) as [R [HR Hst]].
+  destruct (rsync_tail_nstack m (C_rsync :: R ++ sr) Hw) as [ns [Hns [Hs Hc]]].
+  exists ns, R. split; [exact Hns|]. split; [exact HR|]. split; [|exact Hc].
+  assert (Hrel : is_absolute (bytes_of "rsync/" ++ rsync_rel m) = false) by reflexivity.
+  change (point_path hd cache r m) with (push (repo_dir cache r) (bytes_of "rsync/" ++ rsync_rel m)).
+  rewrite (comps_push_rel _ _ _ Hrel), nstack_app, Hst.
+  change (bytes_of "rsync/" ++ rsync_rel m) with (bytes_of "rsync" ++ SLASH :: rsync_rel m).
+  rewrite comps_app_sep, (rsync_rel_comps m Hw). change (comps (bytes_of "rsync")) with [C_rsync].
+  cbn [app]. cbn [app] in Hs. exact Hs.
+Qed.
+
+Theorem point_path_confined : forall cache r m, repo_wf r -> rsync_wf m -> root_ok cache ->
+  under cache (point_path hd cache r m).
+Proof.
+  intros cache r m Hrw Hw [sr Hr]. destruct (point_path_nstack cache r m sr Hrw Hw Hr) as [ns [R [_ [_ [H _]]]]].
+  exists sr, (rev ns ++ r_mod m :: lower (r_auth m) :: C_rsync :: R). split; [exact Hr|].
+  rewrite H. rewrite <- app_assoc. reflexivity.
+Qed.
+
+Lemma point_path_dirflag : forall cache r m, rsync_wf m -> dirflag (point_path hd cache r m) = pflag (r_path m).
+Proof.
+  intros cache r m Hw.
+  change (point_path hd cache r m) with (push (repo_dir cache r) (bytes_of "rsync/" ++ rsync_rel m)).
+  rewrite dirflag_push by reflexivity. unfold dirflag, pflag.
+  change (bytes_of "rsync/" ++ rsync_rel m) with (bytes_of "rsync" ++ SLASH :: rsync_rel m).
+  rewrite comps_app_sep, (rsync_rel_comps m Hw), !last_app_ne; try apply comps_nonempty; [reflexivity | discriminate].
+Qed.
+
+Lemma hd_not_rsync : forall x, hd x <> C_rsync.
+Proof. intros x. apply (hexlike_neq _ _ 114); [apply hd_shape | reflexivity | reflexivity]. Qed.
+Lemma hd_not_rrdp : forall x, hd x <> C_rrdp.
+Proof. intros x. apply (hexlike_neq _ _ 114); [apply hd_shape | reflexivity | reflexivity]. Qed.
+
+(* bottom-first view of a point's resolved path below the cache directory *)
+Lemma point_bottom : forall ns (M A : bstr) R,
+  rev (rev ns ++ M :: A :: C_rsync :: R) = rev R ++ C_rsync :: A :: M :: ns.
+Proof.
+  intros. rewrite rev_app_distr, rev_involutive. cbn [rev]. rewrite <- !app_assoc. reflexivity.
+Qed.
+
+Theorem point_path_distinct : forall cache r1 m1 r2 m2,
+  repo_wf r1 -> repo_wf r2 -> rsync_wf m1 -> rsync_wf m2 -> root_ok cache ->
+  fid (point_path hd cache r1 m1) = fid (point_path hd cache r2 m2) ->
+  repo_eqv r1 r2 /\ rsync_eqv m1 m2.
+Proof.
+  intros cache r1 m1 r2 m2 Hr1 Hr2 Hm1 Hm2 [sr Hr] H. unfold fid in H. inversion H as [[Hn Hd]].
+  destruct (point_path_nstack cache r1 m1 sr Hr1 Hm1 Hr) as [ns1 [R1 [_ [HR1 [S1 C1]]]]].
+  destruct (point_path_nstack cache r2 m2 sr Hr2 Hm2 Hr) as [ns2 [R2 [_ [HR2 [S2 C2]]]]].
+  pose proof (norm_eq_stack _ _ _ _ S1 S2 Hn) as E.
+  rewrite !point_path_dirflag in Hd by assumption.
+  (* drop the cache directory, look at the rest bottom-first *)
+  assert (E' : rev R1 ++ C_rsync :: lower (r_auth m1) :: r_mod m1 :: ns1
+             = rev R2 ++ C_rsync :: lower (r_auth m2) :: r_mod m2 :: ns2).
+  { rewrite <- !point_bottom. f_equal.
+    change (rev ns1 ++ r_mod m1 :: lower (r_auth m1) :: (C_rsync :: R1) ++ sr)
+      with (rev ns1 ++ (r_mod m1 :: lower (r_auth m1) :: C_rsync :: R1) ++ sr) in E.
+    change (rev ns2 ++ r_mod m2 :: lower (r_auth m2) :: (C_rsync :: R2) ++ sr)
+      with (rev ns2 ++ (r_mod m2 :: lower (r_auth m2) :: C_rsync :: R2) ++ sr) in E.
+    rewrite !app_assoc in E. apply app_inv_tail in E. exact E. }
+  clear E S1 S2 Hn H.
+  assert (Kr : C_rsync <> C_rrdp) by discriminate.
+  destruct r1 as [n1|], r2 as [n2|]; cbn [repo_stack repo_wf repo_eqv] in *.
+  - (* both in RRDP repositories *)
+    pose proof (hd_not_rsync (https_digest_input n1)) as K1. pose proof (hd_not_rrdp (https_digest_input n1)) as K2.
+    pose proof (hd_not_rsync (https_digest_input n2)) as K3. pose proof (hd_not_rrdp (https_digest_input n2)) as K4.
+    assert (G : hd (https_digest_input n1) = hd (https_digest_input n2) /\
+                lower (r_auth m1) :: r_mod m1 :: ns1 = lower (r_auth m2) :: r_mod m2 :: ns2).
+    { destruct HR1 as [-> | [-> | ->]], HR2 as [-> | [-> | ->]]; cbn [rev app] in E'; inversion E'; subst;
+        try (split; [first [assumption | reflexivity] | reflexivity]); try congruence. }
+    destruct G as [G1 G2]. split.
+    + destruct Hr1 as [Hw1 D1], Hr2 as [Hw2 D2]. apply hd_injective in G1; [|assumption..].
+      apply https_digest_input_inj; assumption.
+    + inversion G2 as [[Ga Gm Gn]]. subst ns2. unfold rsync_eqv. repeat split; try assumption.
+      apply (path_from_shape _ _ ns1); assumption.
+  - exfalso. pose proof (hd_not_rsync (https_digest_input n1)) as K1.
+    subst R2. destruct HR1 as [-> | [-> | ->]]; cbn [rev app] in E'; inversion E'; congruence.
+  - exfalso. pose proof (hd_not_rsync (https_digest_input n2)) as K1.
+    subst R1. destruct HR2 as [-> | [-> | ->]]; cbn [rev app] in E'; inversion E'; congruence.
+  - split; [exact I|]. subst R1 R2. cbn [rev app] in E'. inversion E' as [[Ga Gm Gn]]. subst ns2.
+    unfold rsync_eqv. repeat split; try assumption. apply (path_from_shape _ _ ns1); assumption.
+Qed.
+
+End Points.
+
+(* ------------------------------------------------------------------ *)
+(* the instance used by the checker: hex rendering of SHA-256 has the assumed shape *)
+
+Lemma hexdigit_hexlow : forall x, x < 16 -> is_hexlow (hexdigit x) = true.
+Proof.
+  intros x Hx. unfold hexdigit, is_hexlow, is_digit. destruct (N.ltb_spec x 10).
+  - replace (48 <=? 48 + x) with true by (symmetry; apply N.leb_le; lia).
+    replace (48 + x <=? 57) with true by (symmetry; apply N.leb_le; lia). reflexivity.
+  - replace (97 <=? 87 + x) with true by (symmetry; apply N.leb_le; lia).
+    replace (87 + x <=? 102) with true by (symmetry; apply N.leb_le; lia). apply orb_true_r.
+Qed.
+
+Lemma hex_hexlow : forall bs, Forall (fun b => b < 256) bs -> forallb is_hexlow (hex bs) = true.
+Proof.
+  induction bs as [|b bs IH]; intros H; [reflexivity|]. inversion H; subst.
+  unfold hex; cbn [flat_map app forallb]. fold (hex bs). rewrite (IH H3), andb_true_r.
+  apply andb_true_iff; split; apply hexdigit_hexlow.
+  - rewrite N.shiftr_div_pow2. change (2 ^ 4) with 16. apply N.div_lt_upper_bound; lia.
+  - change 15 with (N.ones 4). rewrite N.land_ones. apply N.mod_lt. discriminate.
+Qed.
+
+Theorem sha256_hex_shape : forall x, hexlike (sha256_hex x) = true.
+Proof.
+  intros x. unfold sha256_hex, hexlike.
+  pose proof (sha256_nonempty x) as Hne. pose proof (hex_hexlow _ (sha256_small x)) as Hh.
+  destruct (sha256 x) as [|b bs] eqn:E; [congruence|].
+  destruct (hex (b :: bs)) eqn:E2; [discriminate | exact Hh].
+Qed.
+
+(* ------------------------------------------------------------------ *)
+(* boolean confinement test *)
+
+Lemma lbeqb_eq : forall a b, lbeqb a b = true <-> a = b.
+Proof.
+  induction a as [|x a IH]; intros [|y b]; cbn [lbeqb]; split; intros H; try discriminate; try reflexivity.
+  - apply andb_true_iff in H. destruct H as [H1 H2]. apply beqb_eq in H1. apply IH in H2. congruence.
+  - inversion H; subst. rewrite beqb_refl. cbn [andb]. apply IH. reflexivity.
+Qed.
+
+Lemma prefix_combine : forall (r q : list bstr), forallb (fun x => beqb (fst x) (snd x)) (combine r (r ++ q)) = true.
+Proof. induction r as [|x r IH]; intros q; [reflexivity|]. cbn [app combine forallb fst snd]. rewrite beqb_refl. apply IH. Qed.
+
+Lemma under_underb : forall root p, under root p -> underb root p = true.
+Proof.
+  intros root p [sr [out [Hr Hp]]]. unfold underb, norm. rewrite Hr, Hp. cbn [option_map].
+  rewrite rev_app_distr. rewrite prefix_combine, andb_true_r. apply Nat.leb_le. rewrite app_length. lia.
 Qed.
